@@ -70,6 +70,7 @@ structure St where
   firstErr : Option V
   log : List Ev              -- ghost: visitor entries / returns, newest first
   errExits : List V          -- ghost: workers that returned a non-nil error to the errgroup, newest first
+  extCancelled : Bool        -- the caller's own context has been cancelled (environment step `extCancel`)
 
 inductive Who | M | C deriving DecidableEq, Repr
 
@@ -78,6 +79,7 @@ inductive Label
   | ready (w : Who) | enter (w : Who) | spawn (w : Who)
   | wBegin (v : V) | wReturn (v : V) (err : Bool) | wDone (v : V) | wSend (v : V) | wExit (v : V)
   | cRecv | cCtxDone
+  | extCancel   -- environment: the context passed to `InDependencyOrder` is cancelled by its owner (at most once)
 deriving DecidableEq, Repr
 
 def setStatus (f : V → Status) (v : V) (s : Status) : V → Status := fun x => if x = v then s else f x
@@ -169,12 +171,18 @@ def step? (g : Graph) (limit : Option Nat) (s : St) : Label → Option St
       | [] => none
     else none
   | .cCtxDone =>
-    if s.cAlive && s.cSched.isNone && s.cancelled then some { s with cAlive := false } else none
+    -- `case <-ctx.Done(): <-spawned; return nil`: the coordinator keeps its errgroup slot until the caller has left
+    -- the extremities loop (`close(spawned)`, i.e. `m = none`)
+    if s.cAlive && s.cSched.isNone && s.cancelled && s.m.isNone then some { s with cAlive := false } else none
+  | .extCancel =>
+    -- the errgroup's context is derived from the caller's: it is done from now on; no error is recorded
+    if s.extCancelled then none else some { s with cancelled := true, extCancelled := true }
 
+/- (the `extCancel` case of `step?` is the last one above) -/
 def init (g : Graph) : St :=
   { status := fun _ => .absent, workers := [], ch := [], received := [], cAlive := true, cSched := none,
     expect := g.verts.length, m := some ⟨g.verts.filter (fun v => (g.pre v).isEmpty), .next⟩,
-    cancelled := false, firstErr := none, log := [], errExits := [] }
+    cancelled := false, firstErr := none, log := [], errExits := [], extCancelled := false }
 
 inductive Reach (g : Graph) (lim : Option Nat) : St → Prop
   | init : Reach g lim (init g)
